@@ -1,0 +1,13 @@
+//go:build verif
+
+package keeper
+
+import (
+	sdk "github.com/pokt-network/pocket-core/types"
+)
+
+// VerifSimpleSlash exposes simpleSlash (the tail of BurnForChallenge) with an explicit amount to the
+// verification harness (build tag verif only).
+func (k Keeper) VerifSimpleSlash(ctx sdk.Ctx, addr sdk.Address, amount sdk.BigInt) {
+	k.simpleSlash(ctx, addr, amount)
+}
